@@ -34,11 +34,12 @@ func UpdateCase(r *rand.Rand, name string, o UpdateOpts) *Case {
 	ctxD := decl(src, "Ctx", Struct(F("ID", Basic("string"))))
 	fields := map[string]vref.FieldSpec{}
 	var methLines, convLines []string
-	kinds := []string{"basic", "basic", "namedbasic", "struct", "slice", "map", "ptrbasic", "ptrstruct", "chan", "any", "identslice", "identptr", "ignore", "missing", "rename", "func", "basic2ptr", "funcfield", "computed", "mapfunc", "mapfunclist", "mapfuncany", "namedslice", "namedmap"}
+	kinds := []string{"basic", "basic", "namedbasic", "struct", "slice", "map", "ptrbasic", "ptrstruct", "chan", "any", "identslice", "identptr", "ignore", "missing", "rename", "func", "basic2ptr", "funcfield", "computed", "mapfunc", "mapfunclist", "mapfuncany", "namedslice", "namedmap", "whole", "wholefunc"}
 	needSkip, needMissing := false, false
 	computed := false
 	funcSrc := ""
-	var mapFuncs []string
+	var mapFuncs, wholeFuncs []string
+	wholeUsed, needBase := false, false
 	unnamedSource := r.Intn(5) == 0
 	used := map[string]bool{}
 	nf := 3 + r.Intn(6)
@@ -62,6 +63,30 @@ func UpdateCase(r *rand.Rand, name string, o UpdateOpts) *Case {
 		case "slice":
 			sS.Fields = append(sS.Fields, F(f, Slice(Basic(b))))
 			tS.Fields = append(tS.Fields, F(f, Slice(Named(decl(tgt, "TE", Basic(b))))))
+		case "whole":
+			// map . FIELD: the whole source converts into a nested struct of the target
+			if wholeUsed || unnamedSource {
+				i--
+				continue
+			}
+			wholeUsed = true
+			wd := decl(tgt, "TW", Struct(F("WBase", Basic("int"))))
+			tS.Fields = append(tS.Fields, F(f+"W", Named(wd)))
+			methLines = append(methLines, "map . "+f+"W")
+			fields[f+"W"] = vref.FieldSpec{Path: []string{"."}}
+			needBase = true
+		case "wholefunc":
+			// map . FIELD | FUNC: the function receives the whole source (by value, or the pointer the method got)
+			if unnamedSource {
+				i--
+				continue
+			}
+			fn := "Whole" + f
+			tS.Fields = append(tS.Fields, F(f+"Out", Basic("string")))
+			methLines = append(methLines, "map . "+f+"Out | "+fn)
+			fields[f+"Out"] = vref.FieldSpec{Path: []string{"."}, Func: "fn:" + fn}
+			wholeFuncs = append(wholeFuncs, fn)
+			needBase = true
 		case "namedslice":
 			// named slice types are converted by a generated method
 			sS.Fields = append(sS.Fields, F(f, Named(decl(src, "SL", Slice(Basic(b))))))
@@ -159,21 +184,25 @@ func UpdateCase(r *rand.Rand, name string, o UpdateOpts) *Case {
 		sS.Fields = append(sS.Fields, F("Base", Basic("int")))
 		tS.Fields = append(tS.Fields, F("Base", Basic("int")))
 	}
+	if needBase {
+		sS.Fields = append(sS.Fields, F("WBase", Basic("int")))
+	}
 	flagsConv, flagsMeth := vref.Flags{}, vref.Flags{}
 	// inheritable settings at one of the three levels
+	// inheritable settings are written at one of three levels; the value in effect is resolved afterwards
+	// (command line, then converter, then method, each in written order)
+	var setCLI, setConv, setMeth []func(f *vref.Flags)
 	place := func(line string, set func(f *vref.Flags)) {
 		switch r.Intn(3) {
 		case 0:
 			c.Args = append(c.Args, "-g", line)
-			set(&flagsConv)
-			set(&flagsMeth)
+			setCLI = append(setCLI, set)
 		case 1:
 			convLines = append(convLines, line)
-			set(&flagsConv)
-			set(&flagsMeth)
+			setConv = append(setConv, set)
 		default:
 			methLines = append(methLines, line)
-			set(&flagsMeth)
+			setMeth = append(setMeth, set)
 		}
 	}
 	if needSkip || r.Intn(3) == 0 {
@@ -184,7 +213,21 @@ func UpdateCase(r *rand.Rand, name string, o UpdateOpts) *Case {
 	if needMissing {
 		place("ignoreMissing", func(f *vref.Flags) { f.IgnoreMissing = true })
 	}
-	switch r.Intn(4) {
+	// the zero test of a non-comparable struct (the whole source with a slice field) is the known finding
+	// F-C01-noncomparable-zero: keep :struct off there
+	noStructIZ := false
+	if wholeUsed || len(wholeFuncs) > 0 {
+		for _, f := range sS.Fields {
+			if !isComparableLeaf(f.T) {
+				noStructIZ = true
+			}
+		}
+	}
+	izCase := r.Intn(4)
+	if noStructIZ && izCase == 1 {
+		izCase = 2
+	}
+	switch izCase {
 	case 0:
 		// nothing: no zero-value skipping
 	case 1:
@@ -193,17 +236,24 @@ func UpdateCase(r *rand.Rand, name string, o UpdateOpts) *Case {
 		if r.Intn(2) == 0 {
 			place("update:ignoreZeroValueField:basic", func(f *vref.Flags) { f.IZBasic = true })
 		}
-		if r.Intn(2) == 0 {
+		if r.Intn(2) == 0 && !noStructIZ {
 			place("update:ignoreZeroValueField:struct", func(f *vref.Flags) { f.IZStruct = true })
 		}
 		if r.Intn(2) == 0 {
 			place("update:ignoreZeroValueField:nillable yes", func(f *vref.Flags) { f.IZNillable = true })
 		}
-		if r.Intn(4) == 0 {
+		if r.Intn(4) == 0 && !noStructIZ {
 			// enable everything, then switch one part off again
 			place("update:ignoreZeroValueField yes", func(f *vref.Flags) { f.IZBasic, f.IZStruct, f.IZNillable = true, true, true })
 			place("update:ignoreZeroValueField:struct no", func(f *vref.Flags) { f.IZStruct = false })
 		}
+	}
+	for _, set := range append(append([]func(f *vref.Flags){}, setCLI...), setConv...) {
+		set(&flagsConv)
+		set(&flagsMeth)
+	}
+	for _, set := range setMeth {
+		set(&flagsMeth)
 	}
 	// signature
 	sT := Named(S)
@@ -240,6 +290,14 @@ func UpdateCase(r *rand.Rand, name string, o UpdateOpts) *Case {
 		nv = 45
 	}
 	cv.Spec = &vref.Spec{Seed: o.Seed, NValues: nv, Monitors: []string{"update"}, Conv: flagsConv}
+	for _, fn := range wholeFuncs {
+		if sT.K == KPtr && r.Intn(2) == 0 {
+			funcSrc += fmt.Sprintf("func %s(s *src.%s) string { return fmt.Sprintf(\"%s:%%d\", s.WBase) }\n\n", fn, S.Name, fn)
+		} else {
+			funcSrc += fmt.Sprintf("func %s(s src.%s) string { return fmt.Sprintf(\"%s:%%d\", s.WBase) }\n\n", fn, S.Name, fn)
+		}
+		mapFuncs = append(mapFuncs, fn)
+	}
 	if computed || len(mapFuncs) > 0 {
 		qual := "conv."
 		cv.GlueImports = []string{fmt.Sprintf("conv %q", c.Root+"/conv")}
@@ -249,6 +307,9 @@ func UpdateCase(r *rand.Rand, name string, o UpdateOpts) *Case {
 		}
 		cv.Callables = map[string]string{}
 		src := "package conv\n\nimport \"fmt\"\n\nvar _ = fmt.Sprint\n\n"
+		if len(wholeFuncs) > 0 {
+			src = "package conv\n\nimport (\n\t\"fmt\"\n\t\"" + c.Root + "/src\"\n)\n\nvar _ = fmt.Sprint\n\n"
+		}
 		if computed {
 			src += "func Make() string { return \"made\" }\n\n"
 			cv.Spec.Funcs = append(cv.Spec.Funcs, &vref.FuncSpec{Key: "fn:Make", Kind: "map", Roles: []string{}})
